@@ -138,3 +138,21 @@ Example C01_rounding_instances :
   ((0 <= flx_u 53)%R /\ (forall x, (Rabs (flx_rnd 53 x - x) <= flx_u 53 * Rabs x)%R) /\ (forall x, flx_rnd 53 (flx_rnd 53 x) = flx_rnd 53 x)).
 Proof. exact flx_instances. Qed.
 Print Assumptions C01_rounding_instances.
+
+(** * Operand / result index expressions of the kernels and of the inline driver code, as translated
+    from matmul_kernels.h on this run (Gen/GeneratedAccess.v), are the ones [tile_wr] is written with *)
+From FastorV Require Import Gen.GeneratedAccess Proofs.GenAccessEq.
+Theorem C01_source_access_indices :
+  forall W M K N Ru i j ii k n,
+    (gen_mmkernel1_accesses W M K N Ru i j ii k n = model_kernel_accesses 1 W K N Ru i j ii k n /\
+     gen_mmkernel2_accesses W M K N Ru i j ii k n = model_kernel_accesses 2 W K N Ru i j ii k n /\
+     gen_mmkernel3_accesses W M K N Ru i j ii k n = model_kernel_accesses 3 W K N Ru i j ii k n /\
+     gen_mmkernel4_accesses W M K N Ru i j ii k n = model_kernel_accesses 4 W K N Ru i j ii k n /\
+     gen_mmkernel5_accesses W M K N Ru i j ii k n = model_kernel_accesses 5 W K N Ru i j ii k n /\
+     gen_mmkernel_scalar_accesses W M K N Ru i j ii k n = model_kernel_accesses 1 W K N Ru i j ii k n /\
+     gen_mmkernel_mask0_accesses W M K N Ru i j ii k n = model_kernel_accesses 1 W K N Ru i j ii k n /\
+     gen_mmkernel_mask1_accesses W M K N Ru i j ii k n = model_kernel_accesses 1 W K N Ru i j ii k n) /\
+    (gen_mmbase_inline_accesses W M K N i j k n = model_mmbase_inline K N i j k n /\
+     gen_mmbase_masked_inline_accesses W M K N i j k n = model_mmbase_masked_inline K N i j k n).
+Proof. intros. exact (conj (gen_mmkernel_accesses_eq W M K N Ru i j ii k n) (gen_mmbase_inline_accesses_eq W M K N i j k n)). Qed.
+Print Assumptions C01_source_access_indices.
